@@ -267,7 +267,7 @@ Lemma save_and_log_shape : forall a x ri sr name value cat nid input x' v,
   save_and_log a x ri sr name value cat nid input = Done x' v -> same_shape x x'.
 Proof.
   intros a x ri sr name value cat nid input x' v. unfold save_and_log.
-  destruct (trunc value _); [|discriminate].
+  destruct (trunc value _); [|discriminate]. destruct (trunc_ellipsis input _) as [kept|]; [|discriminate].
   destruct (get_run (session_ x) ri).
   - destruct (save_result _ _) as [rs ch]. intros H; inversion H; subst.
     destruct ch.
@@ -279,7 +279,7 @@ Qed.
 Lemma save_and_log_no_goerr : forall a x ri sr name value cat nid input x',
   save_and_log a x ri sr name value cat nid input <> GoErr x'.
 Proof.
-  intros. unfold save_and_log. destruct (trunc value _); [|discriminate].
+  intros. unfold save_and_log. destruct (trunc value _); [|discriminate]. destruct (trunc_ellipsis input _) as [kept|]; [|discriminate].
   destruct (get_run (session_ x) ri); [destruct (save_result _ _)|]; discriminate.
 Qed.
 
